@@ -15,12 +15,37 @@ RULE = ("(a) weight constraints on multi-unit kernels whose columns differ by or
         "scale.constraint / finalize_constraints on the real multi-unit layer): Coq runs the ONE-unit KFL model on "
         "unit u's slice kernel[:, :, u*dims:(u+1)*dims, :], scale row and bias and compares kernel, scale and the "
         "outputs with unit u of the multi-unit implementation; the implementation is also compared with a real "
-        "one-unit layer per unit and with the unit-reversed layer. (b) layer outputs: "
-        "perturbing unit v's parameters/inputs must not change unit u's output (Lattice, PWL, Categorical, Linear, "
-        "KFL). (c) batch independence: layer(x)[i] vs layer(x[i:i+1]) and under row permutation for every layer "
-        "kind, CDF, pwl_calibration_fn, cdf_fn, RTL, ParallelCombination and two premade models. (b), (c) are "
-        "differential testing on the implementation. Non-trivial = units > 1 and the constraint moved the kernel / "
-        "the batch has > 1 distinct rows.")
+        "one-unit layer per unit and with the unit-reversed layer. (b) output-unit locality (kinds outunit = fixed "
+        "3-unit configurations, unitloc = randomised): a real 2-4 unit Lattice (hypercube/simplex, tensor/list "
+        "inputs), PWLCalibration (fixed/learned keypoints, missing value, split outputs), CategoricalCalibration, "
+        "Linear (bias, input clipping), KroneckerFactoredLattice (terms == units every other case) with random "
+        "float64 weights; every parameter tensor's unit-v slice (kernel column / KFL kernel slice, scale row, bias "
+        "entry, missing output, keypoint-logits row) is perturbed one at a time and unit v's input slice is "
+        "replaced: every other unit's output must stay within 1e-12 (and unit v's own output must react to at "
+        "least one of the perturbations); kernels are square (rows == units) every other case so that a transposed "
+        "/ wrong-axis use keeps the shapes. CDF (units = kernel columns x sparsity_factor, all reductions): "
+        "perturbing kernel column j leaves the units of the other columns unchanged, and with sparsity_factor > 1 "
+        "perturbing input dimension i leaves the units not connected to i unchanged. (c) batch independence "
+        "(kinds batch = fixed configurations, batchr = randomised per run, options stratified over the cases of a "
+        "run): Lattice (hypercube, simplex; clip on/off; tensor and list inputs; 1-3 units), PWLCalibration "
+        "(missing_input_value / [inputs, is_missing] / given missing_output_value / none; learned keypoints; cyclic; "
+        "(batch, 1) inputs for several units; split outputs), CategoricalCalibration, Linear, "
+        "KroneckerFactoredLattice, CDF (mean / geometric_mean / none, relu6 / sigmoid, the three input-scaling "
+        "types, sparsity 1-2), RTL (tensor / dict of tensors / dict of lists / mixed; all_vertices and "
+        "kronecker_factored; separate / averaged outputs), ParallelCombination (tensor / list in, single / list "
+        "out), Aggregation over ragged inputs (inner Lattice, calibrators + Linear, premade CalibratedLattice; list "
+        "and dict), pwl_calibration_fn and cdf_fn (every parameter tensor carries the batch axis: row b of the "
+        "output against row b of inputs and parameters), premade CalibratedLattice, CalibratedLinear, "
+        "CalibratedLatticeEnsemble (explicit, 'random', 'rtl_layer'), AggregateFunction with random feature "
+        "configs. Random dyadic weights are assigned to every variable (premade: as they are, or projected once by "
+        "each variable's own constraint - always for simplex lattices); a batch of 4-8 rows with duplicate rows, "
+        "out-of-range values, keypoint values and missing values is evaluated, then (i) every row alone, (ii) a "
+        "random permutation, (iii) a random sub-batch and the batch padded in front and behind with other rows, "
+        "(iv) duplicate rows of the batch: the shared rows' outputs must agree within 1e-9 (float64 wherever the "
+        "API takes it) or 1e-5 (float32-only paths: RTL, premade models other than CalibratedLattice, fixed CDF "
+        "scaling, given missing output of pwl_calibration_fn); an exception or a wrong number of output rows on "
+        "any of these evaluations is a failure too. (b), (c) are differential testing on the implementation. "
+        "Non-trivial = units > 1 and the constraint moved the kernel / the batch has > 1 distinct rows.")
 TRUSTED = ["models: the single-unit instances of Model/LatticeDykstra.v + Model/LatticeFinalize.v, "
            "Model/PWLProject.v, Model/LinearProject.v, Model/KFL.v (+ Model/KFLUnits.v slice_unit); per-column theorems: C06_per_unit, C06_categorical_per_unit, "
            "C04_per_unit, C09_* (Props/C09.v)",
@@ -28,7 +53,16 @@ TRUSTED = ["models: the single-unit instances of Model/LatticeDykstra.v + Model/
 LIMITS = ["batch independence is decided by differential testing on the implementation (the models have no batch "
           "axis: C09_kfl_batch_rows is a statement about the model's form); output-unit independence is proved on "
           "the evaluation models (C09_*_output_unit_local) and tested on the implementation",
-          "float rounding outside the model (1e-9 float64, 1e-5 float32 paths)"]
+          "float rounding outside the model (1e-9 float64, 1e-5 float32 paths): a cross-example leak smaller than "
+          "the tolerance is not seen",
+          "batch / unit sampling per quick run: 6 randomised batch cases per kind (18 kinds) and 6 unit-locality "
+          "cases per layer (6 layers), 60 / 80 in the thorough tier; batches have at most 8 rows (+3 padding), "
+          "ragged rows 1-4 elements (no empty example: its mean is NaN), eager execution only (no tf.function / "
+          "graph-mode model.predict batching), no training-mode behaviour (constraints and regularizers see no "
+          "batch)",
+          "inputs <= -1 are not sampled for simplex lattices without clipping (the implementation truncates "
+          "towards zero and tf.gather raises on CPU) and premade models with simplex lattices get projected weights "
+          "for the same reason; premade Crystals ensembles are not built here (C17)"]
 SHARD = 40
 
 
@@ -68,6 +102,13 @@ def gen_descs(ctx):
   for k in ["lattice", "pwl", "categorical", "linear", "kfl"]:
     for _ in range(ctx.n(3, 20)):
       out.append(dict(kind="outunit", layer=k, seed=rng.randrange(10 ** 6)))
+  # randomised configurations / weights / batch compositions (the two loops above are fixed configurations)
+  for k in BATCHR_KINDS:
+    for j in range(ctx.n(6, 60)):
+      out.append(dict(kind="batchr", layer=k, var=j, seed=rng.randrange(10 ** 9)))
+  for k in UNITLOC_KINDS:
+    for j in range(ctx.n(6, 80)):
+      out.append(dict(kind="unitloc", layer=k, var=j, seed=rng.randrange(10 ** 9)))
   return out
 
 
@@ -360,19 +401,833 @@ def _outunit_case(tf, tfl, d):
   return fails
 
 
+# --------------------------------------------------------------------------
+# (c') batch independence, randomised configurations / weights / batch compositions
+BATCHR_KINDS = ["lattice_hyper", "lattice_simplex", "pwl", "categorical", "linear", "kfl", "cdf", "rtl", "parallel",
+                "aggregation", "pwl_fn", "cdf_fn", "premade_lattice", "premade_linear", "premade_ens_explicit",
+                "premade_ens_random", "premade_ens_rtl", "premade_aggregate"]
+
+
+def _pick(rs, xs):
+  return xs[int(rs.randint(len(xs)))]
+
+
+def _strat(rs, var, xs):
+  """Stratified choice: the var-th case of a kind takes the var-th option (every quick run covers all of them); the
+  random stream is advanced either way."""
+  r = _pick(rs, xs)
+  return xs[var % len(xs)] if var is not None else r
+
+
+def _vals(rs, shape, lo, hi, special=()):
+  """Inputs for a feature with range [lo, hi]: inside, at the ends / keypoints, and out of range (multiples of 1/16)."""
+  span = float(hi - lo)
+  x = np.round(rs.uniform(lo - 0.3 * span - 0.5, hi + 0.3 * span + 0.5, size=shape) * 16) / 16.0
+  pool = np.array([lo, hi] + [float(v) for v in special], dtype=np.float64)
+  return np.where(rs.random_sample(shape) < 0.3, pool[rs.randint(len(pool), size=shape)], x)
+
+
+def _keypoints(rs, nk):
+  k = [float(_pick(rs, [-2.0, -0.5, 0.0, 0.0, 1.0]))]
+  for _ in range(nk - 1):
+    k.append(k[-1] + float(_pick(rs, [0.125, 0.5, 0.5, 1.0, 1.5, 2.0])))
+  return k
+
+
+def _assign_random(rs, weights, lo=-2.0, hi=2.0):
+  for v in weights:
+    v.assign(_rand_dyadic(rs, tuple(v.shape), lo, hi).astype(v.dtype.as_numpy_dtype))
+
+
+def _rows_first(r):
+  """Layer output (tensor / list of tensors / dict of tensors) as one array, examples first."""
+  if isinstance(r, dict):
+    r = [r[key] for key in sorted(r)]
+  if isinstance(r, (list, tuple)):
+    parts = [np.asarray(t, dtype=np.float64) for t in r]
+    return np.concatenate([t.reshape(t.shape[0], -1) for t in parts], axis=1)
+  return np.asarray(r, dtype=np.float64)
+
+
+def _take(cols, idx):
+  idx = [int(i) for i in idx]
+  return [c[idx] if isinstance(c, np.ndarray) else [c[i] for i in idx] for c in cols]
+
+
+def _cat(a, b):
+  return [np.concatenate([x, y], axis=0) if isinstance(x, np.ndarray) else list(x) + list(y) for x, y in zip(a, b)]
+
+
+def _bb_lattice(tf, tfl, rs, N, interp, var=None):
+  while True:
+    sizes = [int(_pick(rs, [2, 2, 3, 4])) for _ in range(int(rs.randint(1, 5)))]
+    if int(np.prod(sizes)) <= 64:
+      break
+  units = int(_pick(rs, [1, 1, 2, 3]))
+  clip, form = _strat(rs, var, [(True, "tensor"), (False, "list"), (False, "tensor"), (True, "list")])
+  layer = tfl.layers.Lattice(lattice_sizes=sizes, units=units, interpolation=interp, clip_inputs=clip, dtype="float64")
+  x = np.stack([_vals(rs, (N, units), 0.0, s - 1.0, range(s)) for s in sizes], axis=-1)
+  if interp == "simplex" and not clip:
+    # simplex interpolation truncates towards zero to find the cell: unclipped inputs <= -1 index outside the kernel
+    # (tf.gather raises on CPU); that is not this property's subject
+    x = np.maximum(x, -0.9375)
+
+  def f(cols):
+    z = cols[0]
+    if form == "tensor":
+      inp = tf.constant(z if units > 1 else z[:, 0, :])
+    elif units > 1:
+      inp = [tf.constant(z[:, :, j:j + 1]) for j in range(len(sizes))]
+    else:
+      inp = [tf.constant(z[:, 0, j:j + 1]) for j in range(len(sizes))]
+    return _rows_first(layer(inp))
+  f([x[:2]])
+  _assign_random(rs, layer.weights)
+  return f, [x], 1e-9, "%s_%s_u%d" % ("clip" if clip else "noclip", form, min(units, 2))
+
+
+def _bb_pwl(tf, tfl, rs, N, var=None):
+  units = int(_pick(rs, [1, 1, 2, 3]))
+  kps = _keypoints(rs, int(rs.randint(2, 7)))
+  kptype = "learned_interior" if (len(kps) > 2 and rs.rand() < 0.35) else "fixed"
+  miss = _strat(rs, var, ["value", "tensor", "value_out", "none", "tensor_out", "value"])
+  mval = float(_pick(rs, [kps[0] - 1.0, -7.5, kps[0], 0.5 * (kps[0] + kps[-1])]))
+  split = bool(units > 1 and rs.rand() < 0.3)
+  narrow = bool(units > 1 and rs.rand() < 0.3)
+  layer = tfl.layers.PWLCalibration(
+      input_keypoints=kps, units=units, is_cyclic=bool(len(kps) > 2 and rs.rand() < 0.2), impute_missing=miss != "none",
+      missing_input_value=mval if miss.startswith("value") else None,
+      missing_output_value=float(_pick(rs, [-3.0, 0.0, 5.0])) if miss.endswith("_out") else None,
+      split_outputs=split, input_keypoints_type=kptype, dtype="float64")
+  w = 1 if narrow else units
+  x = _vals(rs, (N, w), kps[0], kps[-1], kps + ([mval] if miss.startswith("value") else []))
+  m = (rs.random_sample((N, w)) < 0.3).astype(np.float64)
+  # the first two rows of every batch: one wholly missing, one wholly present
+  x[0, :], m[0, :] = mval, 1.0
+  x[1, :], m[1, :] = kps[0] + 0.0625, 0.0
+  x[2, 0], m[2, 0] = mval, 1.0
+  if miss.startswith("value") and mval == kps[0] + 0.0625:
+    x[1, :] = kps[-1]
+
+  def f(cols):
+    if miss.startswith("tensor"):
+      return _rows_first(layer([tf.constant(cols[0]), tf.constant(cols[1])]))
+    return _rows_first(layer(tf.constant(cols[0])))
+  f([x[:2], m[:2]])
+  _assign_random(rs, layer.weights)
+  return f, [x, m], 1e-9, "%s_%s_u%d%s%s" % (miss, kptype.split("_")[0], min(units, 2), "_narrow" if narrow else "",
+                                             "_split" if split else "")
+
+
+def _bb_categorical(tf, tfl, rs, N, var=None):
+  nb = int(rs.randint(2, 7))
+  units = int(_pick(rs, [1, 1, 2, 3]))
+  default = _pick(rs, [None, -1, -1, nb + 2])
+  split = bool(units > 1 and rs.rand() < 0.3)
+  narrow = bool(units > 1 and rs.rand() < 0.3)
+  layer = tfl.layers.CategoricalCalibration(num_buckets=nb, units=units, default_input_value=default,
+                                            split_outputs=split, dtype="float64")
+  npdt = _pick(rs, [np.int32, np.int32, np.int64])
+  x = rs.randint(-2, nb + 3, size=(N, 1 if narrow else units)).astype(npdt)
+  f = lambda cols: _rows_first(layer(tf.constant(cols[0])))
+  f([x[:2]])
+  _assign_random(rs, layer.weights)
+  return f, [x], 1e-9, "default_%s_u%d%s%s" % ("none" if default is None else "set", min(units, 2),
+                                               "_narrow" if narrow else "", "_split" if split else "")
+
+
+def _bb_linear(tf, tfl, rs, N, var=None):
+  dims = int(rs.randint(1, 6))
+  units = int(_pick(rs, [1, 1, 2, 3]))
+  bounds = _strat(rs, var, ["none", "both", "partial"])
+  lo = hi = None
+  if bounds != "none":
+    lo = [(-1.0 if (bounds == "both" or rs.rand() < 0.5) else None) for _ in range(dims)]
+    hi = [(1.5 if (bounds == "both" or rs.rand() < 0.5) else None) for _ in range(dims)]
+  layer = tfl.layers.Linear(num_input_dims=dims, units=units, use_bias=bool(rs.rand() < 0.6), input_min=lo,
+                            input_max=hi, dtype="float64")
+  x = _vals(rs, (N, units, dims), -1.0, 1.5)
+  f = lambda cols: _rows_first(layer(tf.constant(cols[0] if units > 1 else cols[0][:, 0, :])))
+  f([x[:2]])
+  _assign_random(rs, layer.weights)
+  return f, [x], 1e-9, "bounds_%s_u%d" % (bounds, min(units, 2))
+
+
+def _bb_kfl(tf, tfl, rs, N, var=None):
+  L = int(_pick(rs, [2, 2, 3, 4]))
+  dims = int(rs.randint(1, 5))
+  units = int(_pick(rs, [1, 1, 2, 3]))
+  terms = int(rs.randint(1, 4))
+  clip, form = _strat(rs, var, [(True, "tensor"), (False, "list"), (False, "tensor"), (True, "list")])
+  omin, omax = _pick(rs, [(None, None), (None, None), (0.0, 1.0), (-1.0, None), (None, 2.0)])
+  layer = tfl.layers.KroneckerFactoredLattice(lattice_sizes=L, units=units, num_terms=terms, clip_inputs=clip,
+                                              output_min=omin, output_max=omax, dtype="float64")
+  x = _vals(rs, (N, units, dims), 0.0, L - 1.0, range(L))
+
+  def f(cols):
+    z = cols[0]
+    if form == "tensor":
+      inp = tf.constant(z if units > 1 else z[:, 0, :])
+    elif units > 1:
+      inp = [tf.constant(z[:, :, j:j + 1]) for j in range(dims)]
+    else:
+      inp = [tf.constant(z[:, 0, j:j + 1]) for j in range(dims)]
+    return _rows_first(layer(inp))
+  f([x[:2]])
+  _assign_random(rs, layer.weights)
+  return f, [x], 1e-9, "%s_%s_u%d_t%d" % ("clip" if clip else "noclip", form, min(units, 2), min(terms, 2))
+
+
+def _cdf_shape(rs):
+  sf = int(_pick(rs, [1, 1, 2]))
+  units = sf * int(rs.randint(1, 4))
+  dim = sf * int(rs.randint(1, 4))
+  return sf, units, dim
+
+
+def _bb_cdf(tf, tfl, rs, N, var=None):
+  sf, units, dim = _cdf_shape(rs)
+  red = _strat(rs, var, ["mean", "geometric_mean", "none"])
+  act = _pick(rs, ["relu6", "sigmoid"])
+  scaling = _pick(rs, ["fixed", "learned_shared", "learned_per_input"])
+  f64 = scaling != "fixed" and rs.rand() < 0.7   # the fixed input scaling is a float32 constant
+  npdt = np.float64 if f64 else np.float32
+  layer = tfl.layers.CDF(num_keypoints=int(rs.randint(1, 6)), units=units, activation=act, reduction=red,
+                         input_scaling_type=scaling, sparsity_factor=sf, input_scaling_init=float(_pick(rs, [1.0, 2.0, 4.0])),
+                         dtype="float64" if f64 else "float32")
+  x = _vals(rs, (N, dim), 0.0, 1.0).astype(npdt)
+  f = lambda cols: _rows_first(layer(tf.constant(cols[0])))
+  f([x[:2]])
+  _assign_random(rs, layer.weights, 0.0, 1.5)
+  return f, [x], 1e-9 if f64 else 1e-5, "%s_%s_%s_sf%d_%s" % (red, act, scaling, sf, "f64" if f64 else "f32")
+
+
+def _bb_rtl(tf, tfl, rs, N, var=None):
+  form, param = _strat(rs, var, [("dict_list", "all_vertices"), ("dict_tensor", "kronecker_factored"),
+                                 ("tensor", "all_vertices"), ("dict_mixed", "kronecker_factored"),
+                                 ("dict_tensor", "all_vertices"), ("dict_list", "kronecker_factored"),
+                                 ("dict_mixed", "all_vertices"), ("tensor", "kronecker_factored")])
+  rank = int(rs.randint(1, 4))
+  size = int(_pick(rs, [2, 2, 3]))
+  sep = bool(rs.rand() < 0.3)
+  kw = dict(num_lattices=None, lattice_rank=rank, lattice_size=size, separate_outputs=sep,
+            random_seed=int(rs.randint(1000)), clip_inputs=bool(rs.rand() < 0.5), parameterization=param,
+            average_outputs=bool(rs.rand() < 0.3), avoid_intragroup_interaction=bool(rs.rand() < 0.5))
+  if param == "kronecker_factored":
+    kw.update(num_terms=int(rs.randint(1, 4)), kernel_initializer="kfl_random_monotonic_initializer")
+  else:
+    kw.update(interpolation=_pick(rs, ["hypercube", "simplex"]))
+  # groups: (key, width) ; total number of features >= rank
+  if form == "tensor":
+    groups = [("unconstrained", int(rs.randint(rank, rank + 4)))]
+  else:
+    while True:
+      groups = [(key, int(rs.randint(1, 4))) for key in ("unconstrained", "increasing")
+                for _ in range(int(rs.randint(0, 3)))]
+      if form == "dict_tensor":
+        groups = [(key, sum(w for k2, w in groups if k2 == key)) for key in ("unconstrained", "increasing")
+                  if any(k2 == key for k2, _ in groups)]
+      if sum(w for _, w in groups) >= rank and groups:
+        break
+  total = sum(w for _, w in groups)
+  kw["num_lattices"] = -(-total // rank) + int(rs.randint(0, 4))   # every input feature must be used
+  layer = tfl.layers.RTL(**kw)
+  lo_in = -0.9375 if (kw.get("interpolation") == "simplex" and not kw["clip_inputs"]) else -8.0
+  cols = [np.maximum(_vals(rs, (N, w), 0.0, size - 1.0, range(size)), lo_in).astype(np.float32) for _, w in groups]
+
+  def f(cs):
+    if form == "tensor":
+      return _rows_first(layer(tf.constant(cs[0])))
+    inp = {}
+    for (key, _), c in zip(groups, cs):
+      inp.setdefault(key, []).append(tf.constant(c))
+    for key in list(inp):
+      if form == "dict_tensor" or (form == "dict_mixed" and len(inp[key]) == 1):
+        inp[key] = inp[key][0] if len(inp[key]) == 1 else tf.concat(inp[key], axis=1)
+    return _rows_first(layer(inp))
+  f(_take(cols, [0, 1]))
+  _assign_random(rs, layer.weights)
+  return f, cols, 1e-5, "%s_%s%s" % (form, param, "_separate" if sep else "")
+
+
+def _bb_parallel(tf, tfl, rs, N, var=None):
+  k = int(rs.randint(1, 5))
+  f64 = bool(rs.rand() < 0.6)
+  dt = "float64" if f64 else "float32"
+  npdt = np.float64 if f64 else np.float32
+  layers, cols = [], []
+  for _ in range(k):
+    if rs.rand() < 0.6:
+      kps = _keypoints(rs, int(rs.randint(2, 6)))
+      mv = bool(rs.rand() < 0.4)
+      layers.append(tfl.layers.PWLCalibration(input_keypoints=kps, dtype=dt, impute_missing=mv,
+                                              missing_input_value=-7.5 if mv else None))
+      cols.append(_vals(rs, (N, 1), kps[0], kps[-1], kps + ([-7.5] if mv else [])).astype(npdt))
+    else:
+      nb = int(rs.randint(2, 6))
+      layers.append(tfl.layers.CategoricalCalibration(num_buckets=nb, dtype=dt, default_input_value=-1))
+      cols.append(rs.randint(-1, nb, size=(N, 1)).astype(npdt))
+  single, form = _strat(rs, var, [(True, "tensor"), (False, "list"), (True, "list"), (False, "tensor")])
+  layer = tfl.layers.ParallelCombination(layers, single_output=single, dtype=dt)
+
+  def f(cs):
+    if form == "tensor":
+      return _rows_first(layer(tf.constant(np.concatenate(cs, axis=1))))
+    return _rows_first(layer([tf.constant(c) for c in cs]))
+  f(_take(cols, [0, 1]))
+  _assign_random(rs, layer.weights)
+  return f, cols, 1e-9 if f64 else 1e-5, "%s_%s_%s" % (form, "single" if single else "multi", "f64" if f64 else "f32")
+
+
+def _ragged_rows(rs, N, gen):
+  """N examples, each a list of 1-4 elements (one generated row of `gen(count)` per element); a few examples share
+  all their elements but one / have the same length, so that a mean over the wrong axis is visible."""
+  lens = [int(_pick(rs, [1, 1, 2, 3, 4])) for _ in range(N)]
+  flat = gen(sum(lens))
+  out, o = [], 0
+  for n in lens:
+    out.append([flat[o + i] for i in range(n)])
+    o += n
+  return out
+
+
+def _bb_aggregation(tf, tfl, rs, N, var=None):
+  import tf_keras  # pylint: disable=g-import-not-at-top
+  inner, form = _strat(rs, var, [("lattice", "list"), ("calib_linear", "dict"), ("premade_lattice", "list"),
+                                 ("lattice", "dict"), ("calib_linear", "list")])
+  F = int(rs.randint(1, 4))
+  f64 = bool(rs.rand() < 0.6)
+  dt = "float64" if f64 else "float32"
+  npdt = np.float64 if f64 else np.float32
+  sizes = [int(_pick(rs, [2, 3])) for _ in range(F)]
+  names = ["f%d" % i for i in range(F)]
+  lo_in = -8.0
+  if inner == "premade_lattice":
+    fcs = [tfl.configs.FeatureConfig(name=nm, lattice_size=s, pwl_calibration_input_keypoints=_keypoints(rs, 3),
+                                     default_value=_pick(rs, [None, -7.5]))
+           for nm, s in zip(names, sizes)]
+    model = tfl.premade.CalibratedLattice(tfl.configs.CalibratedLatticeConfig(
+        feature_configs=fcs, output_initialization=[0.0, 1.0]), dtype=tf.float64 if f64 else tf.float32)
+    form = "list"
+    shape = (1,)
+  else:
+    shape = ()
+    inputs = [tf_keras.Input(shape=shape, dtype=dt, name="c09agg_%s" % nm) for nm in names]
+    stacked = tf.stack(inputs, axis=-1)
+    if inner == "lattice":
+      lclip, linterp = bool(rs.rand() < 0.5), _pick(rs, ["hypercube", "simplex"])
+      lo_in = -0.9375 if (linterp == "simplex" and not lclip) else -8.0
+      out = tfl.layers.Lattice(lattice_sizes=sizes, clip_inputs=lclip, dtype=dt, interpolation=linterp)(stacked)
+    else:
+      cal = tfl.layers.ParallelCombination([tfl.layers.PWLCalibration(input_keypoints=_keypoints(rs, 3), dtype=dt)
+                                            for _ in range(F)], single_output=True, dtype=dt)(stacked)
+      out = tfl.layers.Linear(num_input_dims=F, dtype=dt)(cal)
+    model = tf_keras.Model(inputs=dict(zip(names, inputs)) if form == "dict" else inputs, outputs=out)
+  agg = tfl.layers.Aggregation(model)
+  rows = _ragged_rows(rs, N, lambda cnt: [[float(v) for v in r] for r in np.stack(
+      [np.maximum(_vals(rs, (cnt,), 0.0, s - 1.0, [-7.5]), lo_in) for s in sizes], axis=1).astype(npdt)])
+
+  def f(cs):
+    rag = [tf.ragged.constant([[e[j] for e in row] for row in cs[0]], dtype=dt, ragged_rank=1) for j in range(F)]
+    return _rows_first(agg(dict(zip(names, rag)) if form == "dict" else rag))
+  f([rows[:2]])
+  _assign_random(rs, model.weights)
+  return f, [rows], 1e-9 if f64 else 1e-5, "%s_%s_%s" % (inner, form, "f64" if f64 else "f32")
+
+
+def _bb_pwl_fn(tf, tfl, rs, N, var=None):
+  from tensorflow_lattice.python import conditional_pwl_calibration as cp  # pylint: disable=g-import-not-at-top
+  units = int(_pick(rs, [1, 1, 2, 3]))
+  nk = int(rs.randint(2, 7))
+  mono, miss = _strat(rs, var, [("none", "derived"), ("increasing", "given"), ("none", "none"), ("increasing", "derived"),
+                                ("none", "given"), ("increasing", "none")])
+  cmin = bool(mono == "increasing" and rs.rand() < 0.4)
+  cmax = bool(mono == "increasing" and rs.rand() < 0.4)
+  cyc = bool(mono == "none" and rs.rand() < 0.3)
+  mval = -7.5
+  psize = nk - int(cmin) - int(cmax) - int(cyc) + int(miss != "none") - int(miss == "given")
+  if psize <= 0:
+    cmin = cmax = cyc = False
+    psize = nk + int(miss == "derived")
+  # float64 is accepted unless the function itself makes a float32 tensor (no input parameters; given missing output)
+  f64 = bool(rs.rand() < 0.5) and nk > 2 and miss != "given"
+  npdt = np.float64 if f64 else np.float32
+  imin = float(_pick(rs, [0.0, -1.0]))
+  imax = imin + float(_pick(rs, [1.0, 2.5]))
+  kw = dict(keypoint_input_min=imin, keypoint_input_max=imax, keypoint_output_min=float(_pick(rs, [0.0, -2.0])),
+            keypoint_output_max=float(_pick(rs, [1.0, 3.0])), units=units, monotonicity=mono, clamp_min=cmin,
+            clamp_max=cmax, is_cyclic=cyc, missing_input_value=mval if miss != "none" else None,
+            missing_output_value=0.25 if miss == "given" else None)
+  narrow = bool(units > 1 and rs.rand() < 0.4)
+  rank2 = bool(rs.rand() < 0.4)   # (batch, P) parameters, shared by the units
+  x = _vals(rs, (N, 1 if narrow else units), imin, imax, [mval] if miss != "none" else []).astype(npdt)
+  if miss != "none":
+    # rows 0 and 2 wholly missing, row 1 present (each row has its own missing output when it is derived)
+    x = np.where(rs.random_sample(x.shape) < 0.25, npdt(mval), x)
+    x[0, :] = x[2, :] = mval
+    x[1, :] = imin + 0.0625
+  kip = _rand_dyadic(rs, (N, nk - 2) if rank2 else (N, _pick(rs, [1, units]), nk - 2)).astype(npdt) if nk > 2 else None
+  kop = _rand_dyadic(rs, (N, psize) if (rank2 and units == 1) else (N, units, psize)).astype(npdt)
+  cols = [x, kop] + ([kip] if kip is not None else [])
+
+  def f(cs):
+    return _rows_first(cp.pwl_calibration_fn(tf.constant(cs[0]), tf.constant(cs[2]) if len(cs) > 2 else None,
+                                             tf.constant(cs[1]), **kw))
+  return f, cols, 1e-9 if f64 else 1e-5, "%s_%s_u%d_%s" % (mono, miss, min(units, 2), "f64" if f64 else "f32")
+
+
+def _bb_cdf_fn(tf, tfl, rs, N, var=None):
+  from tensorflow_lattice.python import conditional_cdf as cc  # pylint: disable=g-import-not-at-top
+  sf, units, dim = _cdf_shape(rs)
+  K = int(rs.randint(1, 5))
+  red = _strat(rs, var, ["mean", "geometric_mean", "none"])
+  f64 = bool(rs.rand() < 0.5)
+  npdt = np.float64 if f64 else np.float32
+  sshape = _pick(rs, [None, (dim, 1, 1), (dim, K, 1), (dim, 1, units // sf), (dim, K, units // sf)])
+  expm = _pick(rs, [None, None, 0.5]) if sshape is not None else None
+  kw = dict(units=units, activation=_pick(rs, ["relu6", "sigmoid"]), reduction=red, sparsity_factor=sf,
+            scaling_exp_transform_multiplier=expm)
+  x = _vals(rs, (N, dim), 0.0, 1.0).astype(npdt)
+  loc = _rand_dyadic(rs, (N, dim, K, units // sf), -0.5, 1.5).astype(npdt)
+  cols = [x, loc]
+  if sshape is not None:
+    cols.append((_rand_dyadic(rs, (N,) + tuple(sshape), 0.25, 4.0) if expm is None else
+                 _rand_dyadic(rs, (N,) + tuple(sshape), -2.0, 2.0)).astype(npdt))
+
+  def f(cs):
+    return _rows_first(cc.cdf_fn(tf.constant(cs[0]), tf.constant(cs[1]), tf.constant(cs[2]) if len(cs) > 2 else None,
+                                 **kw))
+  return f, cols, 1e-9 if f64 else 1e-5, "%s_sf%d_%s_%s" % (red, sf, "noscale" if sshape is None else "scale",
+                                                           "f64" if f64 else "f32")
+
+
+def _premade_features(tfl, rs, nf, same_size=None, allow_cat=True):
+  fcs, gens = [], []
+  for i in range(nf):
+    size = same_size or int(_pick(rs, [2, 2, 3]))
+    if allow_cat and rs.rand() < 0.3:
+      nb = int(rs.randint(2, 5))
+      dv = _pick(rs, [None, -1])
+      fcs.append(tfl.configs.FeatureConfig(name="f%d" % i, num_buckets=nb, default_value=dv, lattice_size=size))
+      gens.append(("cat", nb, dv))
+    else:
+      kps = _keypoints(rs, int(rs.randint(2, 6)))
+      dv = _pick(rs, [None, None, -7.5])
+      fcs.append(tfl.configs.FeatureConfig(
+          name="f%d" % i, lattice_size=size, monotonicity=_pick(rs, ["none", "increasing", "decreasing"]),
+          pwl_calibration_input_keypoints=kps, default_value=dv,
+          pwl_calibration_input_keypoints_type="learned_interior" if (len(kps) > 2 and rs.rand() < 0.25) else "fixed"))
+      gens.append(("num", kps, dv))
+  return fcs, gens
+
+
+def _premade_value_gen(rs, gens, npdt):
+  """count -> list of `count` rows; a row is one value per feature (floats; categorical features as ints)."""
+  def gen(cnt):
+    cs = []
+    for g in gens:
+      if g[0] == "cat":
+        cs.append(rs.randint(-1 if g[2] is not None else 0, g[1], size=cnt).astype(np.float64))
+      else:
+        cs.append(_vals(rs, (cnt,), g[1][0], g[1][-1], list(g[1]) + ([g[2]] if g[2] is not None else [])).astype(npdt)
+                  .astype(np.float64))
+    return [[float(c[i]) for c in cs] for i in range(cnt)]
+  return gen
+
+
+def _bb_premade(tf, tfl, rs, N, which, var=None):
+  C = tfl.configs
+  f64 = bool(which in ("premade_lattice", "premade_aggregate") and rs.rand() < 0.5)
+  npdt = np.float64 if f64 else np.float32
+  tfdt = tf.float64 if f64 else tf.float32
+  nf = int(rs.randint(2, 6)) if which.startswith("premade_ens") else int(rs.randint(1, 5))
+  structure = which.split("_")[-1]
+  param = "all_vertices"
+  if which == "premade_lattice" or structure in ("explicit", "random"):
+    param = _pick(rs, ["all_vertices", "all_vertices", "kronecker_factored"])
+  # RTL and KroneckerFactoredLattice want one lattice size for all features
+  fcs, gens = _premade_features(tfl, rs, nf, same_size=int(_pick(rs, [2, 3])) if (
+      structure == "rtl" or param == "kronecker_factored") else None)
+  outcal = bool(rs.rand() < 0.4)
+  common = dict(feature_configs=fcs, output_calibration=outcal, output_calibration_num_keypoints=int(rs.randint(2, 6)),
+                output_initialization=[0.0, 1.0])
+  bounded = bool(rs.rand() < 0.4)
+  if bounded:
+    common.update(output_min=-1.0, output_max=2.0, output_initialization=[-1.0, 2.0])
+  free_bias = not bounded and not outcal   # a bias next to output bounds / output calibration is rejected
+  tag = ""
+  simplex = False
+  if which == "premade_lattice":
+    kw = dict(parameterization=param)
+    if param == "all_vertices":
+      kw.update(interpolation=_pick(rs, ["hypercube", "simplex"]))
+      simplex = kw["interpolation"] == "simplex"
+    else:
+      kw.update(num_terms=int(rs.randint(1, 4)))
+    model = tfl.premade.CalibratedLattice(C.CalibratedLatticeConfig(**dict(common, **kw)), dtype=tfdt)
+    tag = param
+  elif which == "premade_linear":
+    model = tfl.premade.CalibratedLinear(C.CalibratedLinearConfig(use_bias=bool(free_bias and rs.rand() < 0.6), **common),
+                                         dtype=tfdt)
+  elif which == "premade_aggregate":
+    common.pop("output_min", None), common.pop("output_max", None)
+    common["output_initialization"] = [0.0, 1.0]
+    midcal = bool(rs.rand() < 0.5)
+    msize = int(_pick(rs, [2, 3]))
+    # without middle calibration the aggregated value (in [-1, 1]) is fed to the middle lattice as is: a simplex middle
+    # lattice with more than two vertices per dimension cannot take -1 (see _bb_lattice)
+    minterp = _pick(rs, ["hypercube", "simplex"]) if (midcal or msize == 2) else "hypercube"
+    ainterp = _pick(rs, ["hypercube", "simplex"])
+    simplex = "simplex" in (minterp, ainterp)
+    model = tfl.premade.AggregateFunction(C.AggregateFunctionConfig(
+        middle_dimension=int(rs.randint(1, 4)), middle_lattice_size=msize, middle_calibration=midcal,
+        middle_calibration_num_keypoints=int(rs.randint(2, 5)),
+        middle_monotonicity=_pick(rs, ["increasing", "none"]) if midcal else None,
+        middle_lattice_interpolation=minterp, aggregation_lattice_interpolation=ainterp, **common), dtype=tfdt)
+    tag = "midcal" if midcal else "nomidcal"
+  else:
+    rank = int(rs.randint(1, min(nf, 3) + 1))
+    nl = max(2, -(-nf // rank)) + int(rs.randint(0, 3))
+    kw = dict(parameterization=param, use_linear_combination=bool(rs.rand() < 0.5),
+              separate_calibrators=bool(rs.rand() < 0.6), use_bias=bool(free_bias and rs.rand() < 0.5))
+    if param == "all_vertices":
+      kw.update(interpolation=_pick(rs, ["hypercube", "simplex"]))
+      simplex = kw["interpolation"] == "simplex"
+    else:
+      kw.update(num_terms=int(rs.randint(1, 4)))
+    if structure == "explicit":
+      names = [fc.name for fc in fcs]
+      lattices = [[names[int(i)] for i in rs.choice(nf, size=rank, replace=False)] for _ in range(nl)]
+      used = set(sum(lattices, []))
+      lattices += [[nm] for nm in names if nm not in used]
+      cfg = C.CalibratedLatticeEnsembleConfig(lattices=lattices, **dict(common, **kw))
+    else:
+      cfg = C.CalibratedLatticeEnsembleConfig(lattices="rtl_layer" if structure == "rtl" else "random", num_lattices=nl,
+                                              lattice_rank=rank, random_seed=int(rs.randint(1000)), **dict(common, **kw))
+      if structure == "random":
+        tfl.premade_lib.set_random_lattice_ensemble(cfg)
+    model = tfl.premade.CalibratedLatticeEnsemble(cfg, dtype=tfdt)
+    tag = "%s_%s%s" % (param, "lincomb" if kw["use_linear_combination"] else "avg",
+                       "" if kw["separate_calibrators"] else "_shared")
+  gen = _premade_value_gen(rs, gens, npdt)
+  if which == "premade_aggregate":
+    rows = _ragged_rows(rs, N, gen)
+
+    def f(cs):
+      rag = [tf.ragged.constant([[(int(e[j]) if g[0] == "cat" else e[j]) for e in row] for row in cs[0]],
+                                dtype=tf.int32 if g[0] == "cat" else tfdt, ragged_rank=1) for j, g in enumerate(gens)]
+      return _rows_first(model(rag))
+    cols = [rows]
+  else:
+    flat = np.array(gen(N), dtype=np.float64)
+
+    def f(cs):
+      return _rows_first(model([tf.constant(cs[0][:, j:j + 1].astype(np.int32 if g[0] == "cat" else npdt))
+                                for j, g in enumerate(gens)]))
+    cols = [flat]
+  f(_take(cols, [0, 1]))
+  _assign_random(rs, model.weights)
+  # random weights as they are (calibrators then leave the lattice range: unclipped extrapolation), or - always for
+  # simplex lattices, which cannot take inputs <= -1 - projected once by each weight's own constraint
+  projected = bool(simplex or rs.rand() < 0.4)
+  if projected:
+    for v in model.weights:
+      if getattr(v, "constraint", None) is not None:
+        v.assign(v.constraint(v))
+  # AggregateFunction builds its inner CalibratedLattice models without the dtype: float32 inside a float64 model
+  tol = 1e-9 if (f64 and which == "premade_lattice") else 1e-5
+  return f, cols, tol, "%s%s_%s_%s" % (tag + "_" if tag else "", "outcal" if outcal else "nooutcal",
+                                                         "projected" if projected else "raw", "f64" if f64 else "f32")
+
+
+def _build_batchr(tf, tfl, rs, k, N, var=None):
+  if k in ("lattice_hyper", "lattice_simplex"):
+    return _bb_lattice(tf, tfl, rs, N, {"hyper": "hypercube", "simplex": "simplex"}[k.split("_")[1]], var)
+  if k.startswith("premade_"):
+    return _bb_premade(tf, tfl, rs, N, k, var)
+  return {"pwl": _bb_pwl, "categorical": _bb_categorical, "linear": _bb_linear, "kfl": _bb_kfl, "cdf": _bb_cdf,
+          "rtl": _bb_rtl, "parallel": _bb_parallel, "aggregation": _bb_aggregation, "pwl_fn": _bb_pwl_fn,
+          "cdf_fn": _bb_cdf_fn}[k](tf, tfl, rs, N, var)
+
+
+def _differs(a, b, tol, scale):
+  """None when a and b agree (same shape, no NaN, within tol * scale); else a short description."""
+  a, b = np.asarray(a, dtype=np.float64), np.asarray(b, dtype=np.float64)
+  if a.shape != b.shape:
+    return "shapes %r vs %r" % (a.shape, b.shape)
+  if a.size == 0:
+    return None
+  dlt = np.abs(a - b)
+  if not np.all(dlt <= tol * scale):
+    return "max difference %r" % (float(np.nanmax(dlt)) if not np.all(np.isnan(dlt)) else float("nan"),)
+  return None
+
+
+def _batchr_case(tf, tfl, d):
+  """Randomised batch independence: rows alone, permuted, sub-batch, padded batch, duplicate rows."""
+  rs = np.random.RandomState(d["seed"])
+  k = d["layer"]
+  n0 = int(rs.randint(3, 7))        # distinct rows of the batch
+  n_extra = int(rs.randint(1, 4))   # rows that only the padded batch contains
+  try:
+    f, cols, tol, tag = _build_batchr(tf, tfl, rs, k, n0 + n_extra, d.get("var"))
+    idx = list(range(n0)) + [int(rs.randint(n0)) for _ in range(int(rs.randint(1, 3)))]   # with duplicates
+    tail = idx[2:]
+    rs.shuffle(tail)
+    idx = idx[:2] + tail
+    X = _take(cols, idx)
+    n = len(idx)
+    full = f(X)
+  except Exception as e:  # pylint: disable=broad-except
+    return ["%s: building the layer / evaluating the full batch raised %s: %s" % (k, type(e).__name__, str(e)[:300])], False, "raised"
+  fails = []
+  if full.shape[0] != n:
+    return ["%s: a batch of %d examples gives %d output rows" % (k, n, full.shape[0])], True, tag
+  scale = max(1.0, float(np.abs(full).max())) if np.all(np.isfinite(full)) else 1.0
+  if not np.all(np.isfinite(full)):
+    fails.append("%s: non-finite output on the full batch" % k)
+
+  def run(what, sel_cols, expect):
+    try:
+      got = f(sel_cols)
+    except Exception as e:  # pylint: disable=broad-except
+      fails.append("%s: %s raised %s (the full batch did not): %s" % (k, what, type(e).__name__, str(e)[:200]))
+      return
+    e = _differs(got, expect, tol, scale)
+    if e is not None:
+      fails.append("%s: %s (%s)" % (k, what, e))
+  # (a) every row alone
+  for i in range(n):
+    nf = len(fails)
+    run("row %d evaluated alone differs from the same row inside the batch" % i, _take(X, [i]), full[i:i + 1])
+    if len(fails) > nf:
+      break
+  # (b) a random permutation of the rows permutes the outputs
+  perm = [int(i) for i in rs.permutation(n)]
+  run("permuting the batch does not permute the outputs", _take(X, perm), full[perm])
+  # (c) a random sub-batch, and the batch padded with other rows (before and after)
+  sub = sorted(int(i) for i in rs.choice(n, size=int(rs.randint(1, n)), replace=False))
+  run("a sub-batch gives different outputs for the shared rows", _take(X, sub), full[sub])
+  extra = _take(cols, list(range(n0, n0 + n_extra)))
+  cut = int(rs.randint(0, n_extra + 1))
+  padded = _cat(_cat(_take(extra, range(cut)), X), _take(extra, range(cut, n_extra)))
+  try:
+    got = f(padded)
+    e = _differs(got[cut:cut + n], full, tol, scale) if got.shape[0] == n + n_extra else (
+        "%d output rows for %d examples" % (got.shape[0], n + n_extra))
+    if e is not None:
+      fails.append("%s: padding the batch with other rows changes the outputs of the shared rows (%s)" % (k, e))
+  except Exception as e:  # pylint: disable=broad-except
+    fails.append("%s: the padded batch raised %s (the batch did not): %s" % (k, type(e).__name__, str(e)[:200]))
+  # (d) duplicate rows of the batch have equal outputs
+  for i in range(n):
+    j = idx.index(idx[i])
+    if j != i and _differs(full[i], full[j], tol, scale) is not None:
+      fails.append("%s: rows %d and %d of the batch are identical but their outputs differ" % (k, j, i))
+      break
+  return fails, True, tag
+
+
+# --------------------------------------------------------------------------
+# (b') output-unit locality, randomised configurations
+UNITLOC_KINDS = ["lattice", "pwl", "categorical", "linear", "kfl", "cdf"]
+
+
+def _unitloc_case(tf, tfl, d):
+  """Unit u's output is unchanged (<= 1e-12) when the parameters of another unit v (kernel column / slice, scale row,
+  bias entry, missing output, keypoint logits) or unit v's input slice change.  For CDF (every unit sees every input
+  unless sparsity_factor > 1) the units that may change are those of the perturbed kernel column / input dimension."""
+  rs = np.random.RandomState(d["seed"])
+  k = d["layer"]
+  var = d.get("var")
+  n = int(rs.randint(3, 8))
+  units = int(rs.randint(2, 5))
+  v = int(rs.randint(units))
+  others = [u for u in range(units) if u != v]
+  pos = lambda shape: _rand_dyadic(rs, shape, 0.25, 2.0)   # strictly positive perturbation
+  # square kernels (rows == units) every other case: a transposed / wrong-axis use of the kernel keeps the shapes
+  square = bool(rs.rand() < 0.4) if var is None else var % 2 == 0
+  xin = None      # function: inputs with unit v's slice replaced
+  if k == "lattice":
+    while True:
+      sizes = [int(_pick(rs, [2, 2, 3, 4])) for _ in range(int(rs.randint(1, 4)))]
+      if int(np.prod(sizes)) <= 36:
+        break
+    if square:
+      sizes = {2: [2], 3: [3], 4: _pick(rs, [[2, 2], [4]])}[units]
+    interp = _pick(rs, ["hypercube", "simplex"])
+    form = _pick(rs, ["tensor", "list"])
+    layer = tfl.layers.Lattice(lattice_sizes=sizes, units=units, interpolation=interp, clip_inputs=bool(rs.rand() < 0.5),
+                               dtype="float64")
+    gen = lambda shape: np.stack([np.round(rs.uniform(0, s - 1.0, size=shape) * 16) / 16.0 for s in sizes], axis=-1)
+    x = gen((n, units))
+    call = lambda z: _rows_first(layer(tf.constant(z) if form == "tensor" else
+                                       [tf.constant(z[:, :, j:j + 1]) for j in range(len(sizes))]))
+    tag = "%s_%s%s" % (interp, form, "_square" if square else "")
+    params = lambda: [("kernel column", layer.kernel, (slice(None), v))]
+  elif k == "pwl":
+    kps = _keypoints(rs, units if square else int(rs.randint(2, 7)))
+    kptype = "learned_interior" if (len(kps) > 2 and rs.rand() < 0.4) else "fixed"
+    miss = bool(rs.rand() < 0.5)
+    split = bool(rs.rand() < 0.3)
+    layer = tfl.layers.PWLCalibration(input_keypoints=kps, units=units,
+                                      is_cyclic=bool(len(kps) > 2 and not square and rs.rand() < 0.2),
+                                      impute_missing=miss, missing_input_value=-7.5 if miss else None,
+                                      input_keypoints_type=kptype, split_outputs=split, dtype="float64")
+    gen = lambda shape: np.where(rs.random_sample(shape) < (0.3 if miss else 0.0), -7.5,
+                                 np.round(rs.uniform(kps[0], kps[-1], size=shape) * 16) / 16.0)
+    x = gen((n, units))
+    x[0, :] = 0.5 * (kps[0] + kps[-1])
+    call = lambda z: _rows_first(layer(tf.constant(z)))
+    tag = "%s%s%s%s" % (kptype.split("_")[0], "_missing" if miss else "", "_split" if split else "", "_square" if square else "")
+    params = lambda: ([("kernel column", layer.kernel, (slice(None), v))] +
+                      ([("missing output", layer.missing_output, (0, v))] if miss else []) +
+                      ([("keypoint logits row", layer.interpolation_logits, (v,))] if kptype != "fixed" else []))
+  elif k == "categorical":
+    nb = units if square else int(rs.randint(2, 7))
+    split = bool(rs.rand() < 0.3)
+    layer = tfl.layers.CategoricalCalibration(num_buckets=nb, units=units, default_input_value=_pick(rs, [None, -1]),
+                                              split_outputs=split, dtype="float64")
+    gen = lambda shape: rs.randint(0, nb, size=shape).astype(np.int32)
+    x = gen((n, units))
+    call = lambda z: _rows_first(layer(tf.constant(z)))
+    tag = ("split" if split else "joint") + ("_square" if square else "")
+    params = lambda: [("kernel column", layer.kernel, (slice(None), v))]
+  elif k == "linear":
+    dims = units if square else int(rs.randint(1, 6))
+    bias = bool(rs.rand() < 0.6)
+    clipb = bool(rs.rand() < 0.4)
+    layer = tfl.layers.Linear(num_input_dims=dims, units=units, use_bias=bias, dtype="float64",
+                              input_min=[-1.0] * dims if clipb else None, input_max=[1.0] * dims if clipb else None)
+    gen = lambda shape: _rand_dyadic(rs, shape + (dims,), -1.0, 1.0)
+    x = gen((n, units))
+    call = lambda z: _rows_first(layer(tf.constant(z)))
+    tag = "%s%s%s" % ("bias" if bias else "nobias", "_clip" if clipb else "", "_square" if square else "")
+    params = lambda: ([("kernel column", layer.kernel, (slice(None), v))] +
+                      ([("bias entry", layer.bias, (v,))] if bias else []))
+  elif k == "kfl":
+    L = int(_pick(rs, [2, 2, 3, 4]))
+    dims = int(rs.randint(1, 4))
+    terms = int(_strat(rs, var, [units, 1, units, 2, 3]))   # terms == units: a reduction over the other axis keeps the shapes
+    form = _pick(rs, ["tensor", "list"])
+    omin, omax = _pick(rs, [(None, None), (None, None), (0.0, 1.0)])
+    layer = tfl.layers.KroneckerFactoredLattice(lattice_sizes=L, units=units, num_terms=terms, output_min=omin,
+                                                output_max=omax, clip_inputs=bool(rs.rand() < 0.5), dtype="float64")
+    gen = lambda shape: np.round(rs.uniform(0, L - 1.0, size=shape + (dims,)) * 16) / 16.0
+    x = gen((n, units))
+    call = lambda z: _rows_first(layer(tf.constant(z) if form == "tensor" else
+                                       [tf.constant(z[:, :, j:j + 1]) for j in range(dims)]))
+    tag = "%s_t%s" % (form, "eq_units" if terms == units else str(min(terms, 2)))
+    params = lambda: ([("kernel slice", layer.kernel, (slice(None), slice(None), slice(v * dims, (v + 1) * dims)))] +
+                      [("scale row", layer.scale, (v,))] +
+                      ([("bias entry", layer.bias, (v,))] if isinstance(layer.bias, tf.Variable) else []))
+  else:
+    sf = int(_pick(rs, [1, 1, 2]))
+    cols_n = int(rs.randint(2, 4)) if sf == 1 else int(rs.randint(1, 3))   # kernel columns = units / sparsity_factor
+    units = cols_n * sf
+    dim = sf * int(rs.randint(1, 4))
+    red = _strat(rs, var, ["mean", "geometric_mean", "none"])
+    scaling = _pick(rs, ["learned_shared", "learned_per_input"])
+    layer = tfl.layers.CDF(num_keypoints=int(rs.randint(1, 6)), units=units, activation=_pick(rs, ["relu6", "sigmoid"]),
+                           reduction=red, input_scaling_type=scaling, sparsity_factor=sf, input_scaling_init=2.0,
+                           dtype="float64")
+    x = np.round(rs.uniform(0.1, 0.9, size=(n, dim)) * 16) / 16.0
+    call = lambda z: _rows_first(layer(tf.constant(z))).reshape(n, -1, units)   # (n, 1 or dim / sf, units)
+    call(x)
+    _assign_random(rs, layer.weights, 0.25, 1.0)
+    base = call(x)
+    fails = []
+    j = int(rs.randint(cols_n))
+    kern = layer.kernel.numpy()
+    k2 = np.array(kern)
+    k2[..., j] -= pos(k2[..., j].shape)
+    layer.kernel.assign(k2)
+    o = call(x)
+    layer.kernel.assign(kern)
+    same = [u for u in range(units) if u % cols_n != j]
+    own = [u for u in range(units) if u % cols_n == j]
+    if same and np.abs(o[:, :, same] - base[:, :, same]).max() > 1e-12:
+      fails.append("cdf: changing kernel column %d changes the output of a unit of another column" % j)
+    nontriv = bool(np.abs(o[:, :, own] - base[:, :, own]).max() > 0)   # (relu6 may be saturated at every keypoint)
+    if sf > 1:
+      # unit u reads the input dimensions i with i % sparsity_factor == u // (units / sparsity_factor)
+      i = int(rs.randint(dim))
+      x2 = np.array(x)
+      x2[:, i] = np.round(rs.uniform(0.1, 0.9, size=n) * 16) / 16.0
+      o = call(x2)
+      same = [u for u in range(units) if u // cols_n != i % sf]
+      if np.abs(o[:, :, same] - base[:, :, same]).max() > 1e-12:
+        fails.append("cdf: changing input dimension %d changes a unit that is not connected to it" % i)
+    return fails, "%s_sf%d" % (red, sf), nontriv
+  call(x)
+  _assign_random(rs, layer.weights)
+  base = call(x)
+  fails = []
+  if base.shape != (n, units):
+    return ["%s: output shape %r for %d examples and %d units" % (k, base.shape, n, units)], tag, True
+  # unit v's inputs
+  x2 = np.array(x)
+  x2[:, v] = gen((n,))
+  o = call(x2)
+  if o.shape != base.shape or np.abs(o[:, others] - base[:, others]).max() > 1e-12:
+    fails.append("%s: changing the inputs of unit %d changes the output of another unit" % (k, v))
+  # unit v's parameters, one tensor at a time and then all together
+  own_changed = False
+  plist = params()
+  saved = [var.numpy() for _, var, _ in plist]
+  for (what, var, sl), old in zip(plist, saved):
+    new = np.array(old)
+    new[sl] = new[sl] + pos(np.shape(new[sl]))
+    var.assign(new)
+    o = call(x)
+    var.assign(old)
+    if o.shape != base.shape or np.abs(o[:, others] - base[:, others]).max() > 1e-12:
+      fails.append("%s: changing the %s of unit %d changes the output of another unit" % (k, what, v))
+    elif np.abs(o[:, v] - base[:, v]).max() > 0:
+      own_changed = True
+  if not fails and not own_changed:
+    fails.append("%s: changing the parameters of unit %d does not change its own output (wrong slice?)" % (k, v))
+  return fails, tag, True
+
+
 def eval_cases(ctx, descs):
   tf, tfl = tfimpl.tfl()
   cases = []
   for d in descs:
     kind = d["kind"]
     if kind == "batch":
-      fails, nontriv = _batch_case(tf, tfl, d)
+      try:
+        fails, nontriv = _batch_case(tf, tfl, d)
+      except Exception as e:  # pylint: disable=broad-except
+        fails, nontriv = ["%s: evaluating the batch / a row alone / the permuted batch raised or gave outputs of another "
+                          "shape (%s: %s)" % (d["layer"], type(e).__name__, str(e)[:300])], False
       cases.append(Case(d, coq=None, pred_fail="; ".join(fails) or None, nontrivial=nontriv, klass="batch_" + d["layer"]))
     elif kind == "outunit":
-      fails = _outunit_case(tf, tfl, d)
+      try:
+        fails = _outunit_case(tf, tfl, d)
+      except Exception as e:  # pylint: disable=broad-except
+        fails = ["%s: evaluating the 3-unit layer raised (%s: %s)" % (d["layer"], type(e).__name__, str(e)[:300])]
       cases.append(Case(d, coq=None, pred_fail="; ".join(fails) or None, klass="outunit_" + d["layer"]))
+    elif kind == "batchr":
+      fails, nontriv, tag = _batchr_case(tf, tfl, d)
+      cases.append(Case(d, coq=None, pred_fail="; ".join(fails[:3]) or None, nontrivial=nontriv,
+                        klass="batchr_%s" % d["layer"], info={"configuration": tag}))
+    elif kind == "unitloc":
+      try:
+        fails, tag, nontriv = _unitloc_case(tf, tfl, d)
+      except Exception as e:  # pylint: disable=broad-except
+        fails, tag, nontriv = ["%s: building / evaluating the multi-unit layer raised %s: %s" % (
+            d["layer"], type(e).__name__, str(e)[:300])], "raised", False
+      cases.append(Case(d, coq=None, pred_fail="; ".join(fails[:3]) or None, nontrivial=nontriv,
+                        klass="unitloc_%s" % d["layer"], info={"configuration": tag}))
     elif kind == "kfl9":
-      cases.append(_eval_kfl9(tf, tfl, d))
+      try:
+        cases.append(_eval_kfl9(tf, tfl, d))
+      except Exception as e:  # pylint: disable=broad-except
+        # (a valid multi-unit configuration: on the unchanged tree the layer evaluates)
+        cases.append(Case(d, coq=None, klass="kfl_raised", pred_fail=(
+            "KFL: building / evaluating the %d-unit layer (or its one-unit / unit-reversed counterparts) raised %s: %s"
+            % (d["units"], type(e).__name__, str(e)[:300]))))
     elif kind == "lat":
       cfg = d["cfg"]
       W = np.array(d["w"], dtype=np.float64)
